@@ -73,4 +73,141 @@ theorem or_bit (b k : Nat) (hk : 1 ≤ k) :
   rw [Nat.mod_mod] at this
   omega
 
+theorem desSpec_keep (s : DesN) (rx sample ready : Nat) :
+    (desSpec s rx sample ready).st = (desSpec1 s rx sample).st ∧ (desSpec s rx sample ready).cnt = (desSpec1 s rx sample).cnt ∧
+    (desSpec s rx sample ready).temp = (desSpec1 s rx sample).temp ∧
+    (desSpec s rx sample ready).desync = (desSpec1 s rx sample).desync := by
+  unfold desSpec desSpec2
+  split
+  · split <;> simp
+  · split
+    · split <;> simp
+    · simp
+
+theorem and1_one (p : Nat) (hp : p ≤ 1) : and1 p 1 = p := by
+  unfold and1; split <;> omega
+
+theorem div_step_clk_le (n : Nat) (d : Div) (reset : Nat) (h : d.clk ≤ 1) : (d.step n reset).clk ≤ 1 := by
+  unfold Div.step
+  simp only
+  split
+  · omega
+  · split
+    · unfold not1; split <;> omega
+    · exact h
+
+theorem rx_step (n : Nat) (hn : 1 ≤ n) (r : RxN) (ph : RxPh) (x ready b : Nat) (h : RxAt n r ph) (ok : RxOk ph x) :
+    RxAt n (r.step n x ready) (rxNext n ph x b).1 ∧ feOf r.des r.sample = (rxNext n ph x b).2 := by
+  obtain ⟨div, zRx, zSmp, fsm, des⟩ := r
+  obtain ⟨fst, fsync, fact⟩ := fsm
+  cases ph with
+  | idle z =>
+    obtain ⟨h1, h2, h3, h4, h5, h6, h7⟩ := h
+    simp only at h1 h2 h3 h4 h5 h6 h7
+    subst h1; subst h2; subst h7
+    obtain ⟨okz, okx⟩ := ok
+    have hsm : RxN.sample ⟨div, zRx, zSmp, ⟨0, fsync, 0⟩, des⟩ = 0 := by simp [RxN.sample, and1]
+    obtain ⟨k1, k2, k3, k4⟩ := desSpec_keep des x 0 ready
+    have hd1 : (desSpec1 des x 0).st = 0 ∧ (desSpec1 des x 0).desync = 0 := by simp [desSpec1, h3]
+    by_cases hc : zRx = 1 ∧ x = 0
+    · obtain ⟨hz, hx⟩ := hc
+      subst hz; subst hx
+      have hst : RxN.start ⟨div, 1, zSmp, ⟨0, fsync, 0⟩, des⟩ 0 = 1 := by simp [RxN.start, edgeNeg, and1, not1]
+      simp only [rxNext, RxN.step, hst, hsm, and_self, if_true, RxAt, feOf, h3]
+      refine ⟨⟨by simp [fsmSpec], by simp [fsmSpec], by rw [k4]; exact hd1.2, ?_, by omega, by omega, ?_, ?_⟩, by simp⟩
+      · left; simp [Div.step, or1]; omega
+      · intro _; rw [k1]; exact hd1.1
+      · intro hk; omega
+    · have hst : RxN.start ⟨div, zRx, zSmp, ⟨0, fsync, 0⟩, des⟩ x = 0 := by
+        simp only [RxN.start, edgeNeg, and1, not1]
+        by_cases hx0 : x = 0
+        · have : zRx = 0 := by
+            have : ¬ (zRx = 1) := fun hz => hc ⟨hz, hx0⟩
+            omega
+          simp [hx0, this]
+        · simp [hx0]
+      simp only [rxNext, hc, if_false, RxN.step, hst, hsm, RxAt, feOf, h3]
+      refine ⟨⟨by simp [fsmSpec], by simp [fsmSpec], by rw [k1]; exact hd1.1, by rw [k4]; exact hd1.2,
+        div_step_clk_le n div 0 h5, h5, by trivial⟩, by simp⟩
+  | busy b' k er =>
+    obtain ⟨h1, h2, h3, h4, h5, h6, h7, h8⟩ := h
+    simp only at h1 h2 h3 h4 h5 h6 h7 h8
+    subst h1; subst h2
+    have hpl := ph_pulse n div zSmp er h4
+    have hst : RxN.start ⟨div, zRx, zSmp, ⟨1, fsync, 1⟩, des⟩ x = 0 := by simp [RxN.start, and1, not1]
+    have hsm : RxN.sample ⟨div, zRx, zSmp, ⟨1, fsync, 1⟩, des⟩ = if er = 0 then 1 else 0 := by
+      simp only [RxN.sample]; rw [hpl]; split <;> simp [and1]
+    have hph := ph_step n hn div zSmp er h4
+    have hfs : fsmSpec ⟨1, fsync, 1⟩ 0 des.desync = ⟨1, 0, 1⟩ := by simp [fsmSpec, h3]
+    obtain ⟨dst, dcnt, dstv, dtemp, ddes, dv, dvalid⟩ := des
+    simp only at h3 h7 h8
+    subst h3
+    by_cases he : er = 0
+    · subst he
+      have hx : x = fb b' k := ok rfl
+      have hne : nextE n 0 = 2 * n - 1 := by simp [nextE]
+      rw [hne] at hph
+      rw [if_pos rfl] at hsm
+      obtain ⟨k1, k2, k3, k4⟩ := desSpec_keep ⟨dst, dcnt, dstv, dtemp, 0, dv, dvalid⟩ x 1 ready
+      by_cases hk9 : k < 9
+      · simp only [rxNext, ne_eq, not_true_eq_false, if_false, hk9, if_true, RxN.step, hst, hsm, RxAt, hfs, feOf]
+        by_cases hk0 : k = 0
+        · subst hk0
+          have hs0 : dst = 0 := h7 rfl
+          subst hs0
+          have hx0 : x = 0 := by rw [hx]; simp [fb]
+          subst hx0
+          refine ⟨⟨by trivial, by trivial, ?_, hph, by omega, by omega, by omega, ?_⟩, by simp⟩
+          · rw [k4]; simp [desSpec1]
+          · intro _; rw [k1, k2, k3]; simp [desSpec1, Nat.mod_one]
+        · obtain ⟨g1, g2, g3⟩ := h8 (by omega)
+          subst g1; subst g2; subst g3
+          have hc8 : ¬ (k - 1 = 8) := by omega
+          have hk8 : k ≤ 8 := by omega
+          have hxv : x = b' / 2 ^ (k - 1) % 2 := by rw [hx]; simp [fb, hk0, hk8]
+          refine ⟨⟨by trivial, by trivial, ?_, hph, by omega, by omega, by omega, ?_⟩, by simp [hc8]⟩
+          · rw [k4]; simp [desSpec1, hc8]
+          · intro _
+            rw [k1, k2, k3]
+            simp only [desSpec1, hc8]
+            simp
+            refine ⟨by omega, ?_⟩
+            rw [hxv]; exact or_bit b' k (by omega)
+      · have hk : k = 9 := by omega
+        subst hk
+        obtain ⟨g1, g2, g3⟩ := h8 (by omega)
+        subst g1; subst g2; subst g3
+        simp only [rxNext, ne_eq, not_true_eq_false, if_false, hk9, RxN.step, hst, hsm, RxAt, hfs, feOf]
+        refine ⟨⟨by trivial, by trivial, ?_, ?_, hph⟩, by simp⟩
+        · rw [k4]; simp [desSpec1]
+        · rw [k1]; simp [desSpec1]
+    · have hne : nextE n er = er - 1 := by simp [nextE, he]
+      rw [hne] at hph
+      rw [if_neg he] at hsm
+      obtain ⟨k1, k2, k3, k4⟩ := desSpec_keep ⟨dst, dcnt, dstv, dtemp, 0, dv, dvalid⟩ x 0 ready
+      simp only [rxNext, ne_eq, he, not_false_eq_true, if_true, RxN.step, hst, hsm, if_false, RxAt, hfs, feOf]
+      refine ⟨⟨by trivial, by trivial, ?_, hph, by omega, h6, ?_, ?_⟩, by simp⟩
+      · rw [k4]; simp only [desSpec1]; split <;> (try split) <;> simp
+      · intro hk; rw [k1]; have := h7 hk; subst this; simp [desSpec1]
+      · intro hk
+        obtain ⟨g1, g2, g3⟩ := h8 hk
+        subst g1
+        rw [k1, k2, k3]; simp [desSpec1, g2, g3]
+  | ended =>
+    obtain ⟨h1, h2, h3, h4, h5⟩ := h
+    simp only at h1 h2 h3 h4 h5
+    subst h1; subst h2
+    have hpl := ph_pulse n div zSmp (2 * n - 1) h5
+    have hn0 : ¬ (2 * n - 1 = 0) := by omega
+    have hst : RxN.start ⟨div, zRx, zSmp, ⟨1, fsync, 1⟩, des⟩ x = 0 := by simp [RxN.start, and1, not1]
+    have hsm : RxN.sample ⟨div, zRx, zSmp, ⟨1, fsync, 1⟩, des⟩ = 0 := by
+      simp only [RxN.sample]; rw [hpl]; simp [hn0, and1]
+    have hph := ph_step n hn div zSmp (2 * n - 1) h5
+    have hcl := ph_clk_le n _ _ _ hph
+    obtain ⟨k1, k2, k3, k4⟩ := desSpec_keep des x 0 ready
+    simp only [rxNext, RxN.step, hst, hsm, RxAt, feOf, h4]
+    refine ⟨⟨by simp [fsmSpec, h3], by simp [fsmSpec, h3], ?_, ?_, hcl.1, hcl.2, by trivial⟩, by simp⟩
+    · rw [k1]; simp [desSpec1, h4]
+    · rw [k4]; simp [desSpec1, h4]
+
 end C17
